@@ -7,6 +7,7 @@ looks like template syntax, valid UTF-8 bytes, objects whose __str__ returns suc
 "numbers that are not just digits": IntEnum members and int/float subclasses whose __str__/__format__
 return markup, bool, floats).
 Autoescape is configured at every level: loader default / DictLoader(autoescape=...) /
+tornado.template.Loader over a temporary directory (a share of the loader cases) /
 Template(autoescape=...) for single files / a loader subclass whose _create_template passes an explicit
 per-file Template(..., loader=self, autoescape=policy[name]) that differs from the loader's own setting
 (the template's argument governs, the loader's is only the default) / one {% autoescape f|None %}
@@ -32,6 +33,9 @@ Expression tags are plain names and compound shapes (calls to escape/xhtml_escap
 json_encode/linkify, concatenations such as escape(a) + str(b), conditional expressions, method calls,
 %-formatting) with an adversarial value in every operand; the property is about the VALUE of the whole
 expression, so `{{ escape(a) }}` under an escaping setting is f(escape(a)) -- double-escaped by default.
+Part "nest" (deterministic, 200 cases): include in include, include inside an overriding block of a 2-/3-level
+extends chain, through loops and apply; every file has a different policy (permutations of xhtml_escape, None,
+url_escape, myesc, bresc); an expression follows every inner construct.
 Part "dirs": the same clauses for every entry of a history loaded through ONE loader over a template set in
 2-3 directories where the same relative name means different files (see C19).
 Values whose rendering raises (NameError from an unset local ...) must raise the same type in both.
@@ -39,7 +43,7 @@ Values whose rendering raises (NameError from an unset local ...) must raise the
 Related open finding (filed under C19, the template is ill-formed): `{% autoescape %}` without a function
 name is accepted and silently turns escaping off for the file (findings_inbox/C19-autoescape-empty-accepted.md).
 
-Sensitivity (quick tier, seed 1, scratch copy of /repo/tornado; all 12 caught; clause after shrinking):
+Sensitivity (quick tier, seed 1, scratch copy of /repo/tornado; all 13 caught; clause after shrinking):
   M1 _Expression.generate consults the root template (include_stack[0]) instead of current_template -> C20.meta_output
   M2 values that are not str/bytes are str()-ed but not escaped                                    -> C20.special_char_without_unescaped_source
   M3 _CodeWriter.include() does not restore current_template on exit                              -> C20.meta_output
@@ -59,6 +63,8 @@ Sensitivity (quick tier, seed 1, scratch copy of /repo/tornado; all 12 caught; c
      a custom escaper; was missed before compound expressions (helper calls, concatenation,               C19.output catches it too)
      conditional expressions, method calls, %-formatting over adversarial operands) joined the pool
   M12 BaseLoader.load caches under the unresolved name (seeded for C19, round 7)                       -> C20.output, part "dirs", seeds 1, 2, 3
+  M13 _CodeWriter.include().__exit__ restores with include_stack.pop(0) (seeded C19-2): after a          -> C20.output, part "nest" (deterministic,
+     2-level nesting returns, the outermost file's policy governs the following expressions                 200 cases), seeds 1, 2
 """
 import copy
 import logging
@@ -239,6 +245,8 @@ def c20_case(draw):
         case["perfile"] = [draw(st.sampled_from(PERFILE)) for _ in case["files"]]
     else:
         case["perfile"] = None
+    # a share of the plain loader cases goes through the file-system Loader
+    case["fs"] = case["direct"] == "loader" and case["perfile"] is None and draw(st.integers(0, 2)) == 0
     return case
 
 
@@ -346,6 +354,17 @@ def run_both(case, files, kwargs, entry=None, shared=None):
         try:
             if shared is not None:
                 t = shared.load(entry)
+            elif case.get("fs") and not case.get("perfile"):
+                # file-system Loader over a temporary directory (files written as UTF-8 bytes)
+                import os
+                import tempfile
+                with tempfile.TemporaryDirectory(prefix="c20fs") as root:
+                    for fname, text in files.items():
+                        path = os.path.join(root, fname)
+                        os.makedirs(os.path.dirname(path), exist_ok=True)
+                        with open(path, "wb") as fh:
+                            fh.write(text.encode("utf-8"))
+                    t = template.Loader(root, namespace=ns, **lkw).load(entry)
             elif case.get("perfile"):
                 t = PerFileLoader(dict(files), policy, namespace=ns, **lkw).load(entry)
             else:
@@ -437,6 +456,8 @@ def evaluate(ctx, case, labels, entry=None, shared=None, do_meta=True):
     loader_default = "xhtml_escape" if case["loader"]["autoescape"] == "default" else case["loader"]["autoescape"]
     if case.get("perfile"):
         labels.add("perfile_loader")
+    if case.get("fs") and shared is None:
+        labels.add("fs_loader")
     detail = {"files": files, "values": case["values"], "loader": case["loader"], "direct": case["direct"], "entry": entry,
               "history": case.get("history"),
               "perfile": case.get("perfile"),
@@ -638,10 +659,24 @@ def chain_root(case, entry=None):
     return fd["name"]
 
 
-PARTS = {"main": run_case, "dirs": run_dirs_case}
+NEST_VALUES = [["str", "<M0q&>"], ["bytes", b"'M1q\""], ["obj", "<M2q>"], ["str", "&M3q<"], ["intenum", "M4q<'"]]
+
+
+def nest_cases():
+    """Deterministic family: 2- and 3-level composition (include in include, include inside an overriding block of
+    a 2-/3-level extends chain, through loops and apply), all per-file policies different, an expression after
+    every inner construct returns."""
+    for k, files in enumerate(G.nest_layouts(["a0", "a1", "a2", "a3", "a4"], ["xhtml_escape", "None", "url_escape", "myesc", "bresc"])):
+        yield {"files": files, "loader": {"autoescape": ["default", None, "myesc"][k % 3], "whitespace": None}, "profile": "c20",
+               "tagstyle": k % 3, "mutation": None, "values": NEST_VALUES, "meta": [k % len(files), SETTINGS[k % len(SETTINGS)]],
+               "direct": "loader", "perfile": None, "fs": k % 4 == 0}
+
+
+PARTS = {"main": run_case, "dirs": run_dirs_case, "nest": run_case}
 
 
 def main(ctx):
     ctx.run_replays(PARTS)
+    ctx.enumerate(nest_cases(), run_case, name="nest")
     ctx.explore(c20_case(), run_case, ctx.n(900, 28000), name="main")
     ctx.explore(c20_dirs_case(), run_dirs_case, ctx.n(150, 4000), name="dirs")
